@@ -199,7 +199,14 @@ def _method_writes(fn: ast.FunctionDef) -> set[str]:
 
 
 def _delta(s: ast.stmt, attr: str) -> Optional[tuple[str, ast.expr]]:
-    """('+', e) / ('-', e) if s is `self.attr += e`, `self.attr -= e`, `self.attr = self.attr +/- e`."""
+    """('+', e) / ('-', e) if s is `self.attr += e`, `self.attr -= e`, `self.attr = self.attr +/- e`
+    (also as one component of a parallel assignment `self.a, self.b = ..., ...`)."""
+    if isinstance(s, ast.Assign) and len(s.targets) == 1 and isinstance(s.targets[0], (ast.Tuple, ast.List)) \
+            and isinstance(s.value, (ast.Tuple, ast.List)) and len(s.value.elts) == len(s.targets[0].elts):
+        for t, v in zip(s.targets[0].elts, s.value.elts):
+            if _self_attr(t) == attr:
+                return _delta(ast.Assign(targets=[t], value=v), attr)
+        return None
     if isinstance(s, ast.AugAssign) and _self_attr(s.target) == attr:
         if isinstance(s.op, ast.Add):
             return "+", s.value
@@ -232,6 +239,128 @@ def _on_all_normal_paths(g: cfgmod.CFG, n: int) -> bool:
     return g.postdominates(n, cfgmod.ENTRY)
 
 
+# ------------------------------------------------------------------ one-level inlining of private helpers
+
+def _inline_helpers(fn: ast.FunctionDef, lookup, skip: frozenset = frozenset()) -> ast.FunctionDef:
+    """Copy of fn in which (one level of) statement-level calls `self.h(...)` of a helper method h of the same class
+    are replaced by h's body (parameters bound, helper locals renamed), and `for c in (self.a, self.b): c()` loops over
+    a literal tuple of bound methods are unrolled.  Helpers that return a value, contain nested defs or reassign a
+    parameter are left alone.  The analysed structure is then the same whether or not a helper was extracted."""
+    import copy
+
+    def params_of(h: ast.FunctionDef) -> list[str]:
+        ps = [a.arg for a in h.args.posonlyargs + h.args.args]
+        return ps[1:] if ps and ps[0] in ("self", "cls") else ps
+
+    def helper_body(call: ast.Call) -> Optional[list]:
+        f = call.func
+        if not (isinstance(f, ast.Attribute) and isinstance(f.value, ast.Name) and f.value.id == "self"):
+            return None
+        h = lookup(f.attr)
+        if h is None or h.name == fn.name or h.name in skip or h.args.vararg or h.args.kwarg:
+            return None
+        body = [s for s in h.body if not (isinstance(s, ast.Expr) and isinstance(s.value, ast.Constant)
+                                          and isinstance(s.value.value, str))]
+        if body and isinstance(body[-1], ast.Return) and body[-1].value is None:
+            body = body[:-1]
+        for s in body:
+            for n in walk_local(s):
+                if isinstance(n, (ast.Return, ast.Yield, ast.YieldFrom, ast.FunctionDef, ast.AsyncFunctionDef, ast.Lambda,
+                                  ast.Global, ast.Nonlocal, ast.ClassDef)):
+                    return None
+        ps = params_of(h)
+        if any(isinstance(a, ast.Starred) for a in call.args) or any(k.arg is None for k in call.keywords) \
+                or len(call.args) > len(ps):
+            return None
+        m: dict[str, ast.AST] = {p: a for p, a in zip(ps, call.args)}
+        for k in call.keywords:
+            if k.arg in m or k.arg not in ps + [a.arg for a in h.args.kwonlyargs]:
+                return None
+            m[k.arg] = k.value
+        for pname, d in zip(ps[len(ps) - len(h.args.defaults):], h.args.defaults):
+            m.setdefault(pname, d)
+        for a, d in zip(h.args.kwonlyargs, h.args.kw_defaults):
+            if d is not None:
+                m.setdefault(a.arg, d)
+        if set(ps) - set(m):
+            return None
+        stored = {t.id for s in body for n in walk_local(s) if isinstance(n, ast.stmt) for t in assigned_targets(n)
+                  if isinstance(t, ast.Name)}
+        if stored & set(m):
+            return None
+        ren = {nm: f"{nm}__{h.name}" for nm in stored}
+
+        class T(ast.NodeTransformer):
+            def visit_Name(self, n: ast.Name):
+                if n.id in ren:
+                    return ast.copy_location(ast.Name(id=ren[n.id], ctx=n.ctx), n)
+                if n.id in m and isinstance(n.ctx, ast.Load):
+                    return ast.copy_location(copy.deepcopy(m[n.id]), n)
+                return n
+
+        return [ast.fix_missing_locations(T().visit(copy.deepcopy(s))) for s in body]
+
+    def unrolled(s: ast.For) -> Optional[list]:
+        if not (isinstance(s.target, ast.Name) and isinstance(s.iter, (ast.Tuple, ast.List)) and s.iter.elts and not s.orelse):
+            return None
+        if not all(isinstance(e, ast.Attribute) and isinstance(e.value, ast.Name) and e.value.id == "self" for e in s.iter.elts):
+            return None
+        if any(isinstance(n, (ast.Break, ast.Continue)) for b in s.body for n in walk_local(b)):
+            return None
+        out = []
+        for e in s.iter.elts:
+            class U(ast.NodeTransformer):
+                def visit_Name(self, n: ast.Name):
+                    if n.id == s.target.id and isinstance(n.ctx, ast.Load):
+                        return ast.copy_location(copy.deepcopy(e), n)
+                    return n
+            out += [ast.fix_missing_locations(U().visit(copy.deepcopy(b))) for b in s.body]
+        return out
+
+    def rewrite(stmts: list, depth: int = 0) -> list:
+        out = []
+        for s in stmts:
+            if isinstance(s, ast.For) and depth == 0:
+                un = unrolled(s)
+                if un is not None:
+                    out += rewrite(un, depth)
+                    continue
+            if isinstance(s, ast.Expr) and isinstance(s.value, ast.Call) and depth == 0:
+                b = helper_body(s.value)
+                if b is not None:
+                    out += rewrite(b, depth + 1)  # unroll loops inside, but do not inline a second level
+                    continue
+            if not isinstance(s, (ast.FunctionDef, ast.AsyncFunctionDef, ast.ClassDef)):
+                for field in ("body", "orelse", "finalbody"):
+                    v = getattr(s, field, None)
+                    if isinstance(v, list) and v and isinstance(v[0], ast.stmt):
+                        setattr(s, field, rewrite(v, depth))
+                if isinstance(s, ast.Try):
+                    for hd in s.handlers:
+                        hd.body = rewrite(hd.body, depth)
+            out.append(s)
+        return out
+
+    fn2 = copy.deepcopy(fn)
+    fn2.body = rewrite(fn2.body)
+    return fn2
+
+
+def _opaque_helpers(fn: ast.FunctionDef, lookup, relevant: set[str], where: str) -> None:
+    """After inlining: a remaining call `self.h(...)` of a same-class helper that itself performs one of the `relevant`
+    calls hides part of the analysed protocol -> Undecided (never a finding)."""
+    for c in walk_local(fn):
+        if isinstance(c, ast.Call) and isinstance(c.func, ast.Attribute) and isinstance(c.func.value, ast.Name) \
+                and c.func.value.id == "self":
+            h = lookup(c.func.attr)
+            if h is None or h.name == fn.name or c.func.attr in relevant:
+                continue
+            inner = [x for x in walk_local(h) if isinstance(x, ast.Call) and call_name(x) in relevant]
+            if inner:
+                raise Undecided(f"{where}: helper self.{h.name}() performs `{call_name(inner[0])}` but could not be inlined "
+                                "(returns a value / is used in an expression)")
+
+
 # ------------------------------------------------------------------ R1
 
 def _rule_compute(ctx: Ctx, mod, meths: dict) -> None:
@@ -239,9 +368,12 @@ def _rule_compute(ctx: Ctx, mod, meths: dict) -> None:
     if fn is None:
         raise AnchorError(f"{TSC}:{CLS}.{M_COMPUTE} missing")
     q = f"{CLS}.{M_COMPUTE}"
-    for m in (M_ITER, M_RECOMP, M_MIN, M_MAX, M_SCHED):
+    roles = (M_ITER, M_RECOMP, M_MIN, M_MAX, M_SCHED)
+    for m in roles:
         if m not in meths:
             raise AnchorError(f"{TSC}:{CLS}.{m} missing")
+    fn = _inline_helpers(fn, meths.get, skip=frozenset(roles))
+    _opaque_helpers(fn, meths.get, set(roles), f"{TSC}:{q}")
     g = cfgmod.build(fn)
     params = [a.arg for a in fn.args.args]
     if "recompute_solution" not in params:
@@ -370,28 +502,37 @@ def _cmp_norm(test: ast.expr, small: str, big: str) -> Optional[str]:
 
 
 def _rule_recomputation(ctx: Ctx, mod, meths: dict) -> dict:
-    fn = meths[M_RECOMP]
+    fn = _inline_helpers(meths[M_RECOMP], meths.get)
     q = f"{CLS}.{M_RECOMP}"
     g = cfgmod.build(fn)
     T = [n for n in _writes(g, "time") if (_delta(g.stmt[n], "time") or ("?", None))[0] == "-"]
-    if not T:
-        ctx.check("R2", False, mod, q, fn, "no rewind of self.time (`self.time -= self.dt`) on the recomputation path: a "
-                  "failed step does not return the clock to the last accepted time", construct="rewind of self.time")
-        return {"g": g, "T": []}
     other_time = [n for n in _writes(g, "time") if n not in T]
     if other_time:
         raise Undecided(f"{TSC}:{q}: unrecognised write to self.time: {u(g.stmt[other_time[0]])}")
+    if not T:
+        ctx.check("R2", False, mod, q, fn, "no rewind of self.time (`self.time -= self.dt`) on the recomputation path: a "
+                  "failed step does not return the clock to the last accepted time", construct="rewind of self.time")
+        return {"g": g, "T": [], "fn": fn}
     D = _writes(g, "dt")
     if not D:
         raise AnchorError(f"{TSC}:{q}: no write to self.dt")
     for t in T:
         amount = _delta(g.stmt[t], "time")[1]
+        read_at = t
+        for _ in range(3):  # `old_dt = self.dt; ...; self.time -= old_dt`: the step is read where the temporary is defined
+            if not isinstance(amount, ast.Name):
+                break
+            defs = [n for n, s_ in g.stmt.items() if isinstance(s_, (ast.Assign, ast.AnnAssign)) and any(
+                isinstance(x, ast.Name) and x.id == amount.id for x in assigned_targets(s_))]
+            if len(defs) != 1 or getattr(g.stmt[defs[0]], "value", None) is None or not g.dominates(defs[0], t):
+                break
+            read_at, amount = defs[0], g.stmt[defs[0]].value
         ctx.check("R2", u(amount) == "self.dt", mod, q, g.stmt[t],
                   "the clock must be rewound by exactly the step that was taken (self.dt)", facts={"amount": u(amount)})
         ctx.check("R2", _on_all_normal_paths(g, t), mod, q, g.stmt[t],
                   "the rewind must happen on every normally returning path of the recomputation adaptation",
                   construct="rewind on all normal paths")
-        early = [d for d in D if g.reachable(d, t)]
+        early = [d for d in D if g.reachable(d, read_at)]
         ctx.check("R2", not early, mod, q, g.stmt[t],
                   "self.dt is modified before the clock is rewound: `time -= dt` then subtracts the *new* step and the "
                   "clock does not return to the last accepted time",
@@ -430,10 +571,16 @@ def _rule_recomputation(ctx: Ctx, mod, meths: dict) -> dict:
         ctx.check("R2", g.dominates(bn, T[0]) and not exhausted_returns and not exhausted_rewinds and bool(succ_ok), mod, q,
                   g.stmt[bn].test, "when the budget is exhausted the method must raise (never return normally or rewind)",
                   construct="exhausted budget -> raise", facts={"returns": exhausted_returns, "rewinds": exhausted_rewinds})
-    return {"g": g, "T": T}
+    return {"g": g, "T": T, "fn": fn}
 
 
 # ------------------------------------------------------------------ R3
+
+def _flag_exprs(g: cfgmod.CFG) -> list[int]:
+    """Nodes `self.<flag> = <non-constant test>`."""
+    return [n for n in _writes(g, FLAG) if isinstance(g.stmt[n], (ast.Assign, ast.AnnAssign)) and g.stmt[n].value is not None
+            and not isinstance(g.stmt[n].value, ast.Constant)]
+
 
 def _flag_sets(g: cfgmod.CFG, value: bool) -> list[int]:
     return [n for n in _writes(g, FLAG) if isinstance(g.stmt[n], (ast.Assign, ast.AnnAssign)) and isinstance(
@@ -443,8 +590,14 @@ def _flag_sets(g: cfgmod.CFG, value: bool) -> list[int]:
 def _rule_cursor(ctx: Ctx, mod, meths: dict, rec: dict) -> None:
     n_inc = n_dec = 0
     flag_atom = f"self.{FLAG}"
-    for name, fn in meths.items():
-        if CURSOR not in _method_writes(fn):
+    sched_fn = _inline_helpers(meths[M_SCHED], meths.get, skip=frozenset({M_SCHED}))
+    analysed = {M_RECOMP: rec["fn"], M_SCHED: sched_fn}
+    # helpers of the two methods were inlined into them; they are not analysed on their own
+    inlined = {c.func.attr for m_ in (M_RECOMP, M_SCHED) for c in walk_local(meths[m_]) if isinstance(c, ast.Call)
+               and isinstance(c.func, ast.Attribute) and u(c.func.value) == "self"} - {M_RECOMP, M_SCHED}
+    for name, fn0 in meths.items():
+        fn = analysed.get(name, fn0)
+        if CURSOR not in _method_writes(fn) or (name in inlined and name not in analysed):
             continue
         q = f"{CLS}.{name}"
         g = rec["g"] if name == M_RECOMP else cfgmod.build(fn)
@@ -465,6 +618,12 @@ def _rule_cursor(ctx: Ctx, mod, meths: dict, rec: dict) -> None:
                 F = _flag_sets(g, True)
                 together = any((g.dominates(f, n) and g.postdominates(n, f)) or (g.dominates(n, f) and g.postdominates(f, n))
                                for f in F)
+                for x in _flag_exprs(g):
+                    # `flag = <test>` form: the increment runs exactly on the paths on which the flag was set true
+                    e_txt = u(g.stmt[x].value)
+                    no, yes = {flag_atom: False, e_txt: False}, {flag_atom: True, e_txt: True}
+                    together = together or (g.dominates(x, n) and n not in _reach(g, no, start=x)
+                                            and cfgmod.EXIT not in _reach(g, yes, avoid=frozenset({n}), start=x))
                 ctx.check("R3", together, mod, q, st,
                           f"the cursor is advanced without setting {FLAG} on the same paths: a failure of that step would not "
                           "step the cursor back and the scheduled time is skipped",
@@ -487,14 +646,16 @@ def _rule_cursor(ctx: Ctx, mod, meths: dict, rec: dict) -> None:
         raise AnchorError(f"{TSC}:{CLS}: schedule cursor increments/decrements not found ({n_inc}/{n_dec})")
 
     # flag reset and the corrected step in the schedule correction
-    fn = meths[M_SCHED]
+    fn = sched_fn
     q = f"{CLS}.{M_SCHED}"
     g = cfgmod.build(fn)
-    Z, F = _flag_sets(g, False), _flag_sets(g, True)
-    other = [n for n in _writes(g, FLAG) if n not in Z and n not in F]
-    if other:
-        raise Undecided(f"{TSC}:{q}: {FLAG} is not maintained by constant assignments")
+    Z, F, X = _flag_sets(g, False), _flag_sets(g, True), _flag_exprs(g)
+    other = [n for n in _writes(g, FLAG) if n not in Z and n not in F and n not in X]
+    if other or (X and (Z or F)):
+        raise Undecided(f"{TSC}:{q}: {FLAG} is maintained by an unrecognised mix of assignments")
     incs = [n for n in _writes(g, CURSOR) if (_delta(g.stmt[n], CURSOR) or ("?", None))[0] == "+"]
+    # `flag = <test>` on every pass is a reset and a set in one statement
+    Z = Z + X
     ok = bool(Z) and any(_on_all_normal_paths(g, z) and all(g.dominates(z, f) for f in F + incs) for z in Z)
     ctx.check("R3", ok, mod, q, g.stmt[Z[0]] if Z else fn,
               f"{FLAG} must be reset to False on every pass before it can be set: a stale True makes the next failed step "
@@ -548,7 +709,9 @@ def _rule_cursor(ctx: Ctx, mod, meths: dict, rec: dict) -> None:
                   construct="corrected dt = schedule[cursor before increment] - time",
                   facts={"left": u(src), "right": u(right), "cursor_moved_before_read": bool(moved)})
         # the correction only happens on paths that also advance the cursor and set the flag
-        ok = any(g.dominates(i, cn) for i in incs) and any(g.dominates(f, cn) for f in F)
+        flag_on = any(g.dominates(f, cn) for f in F) or any(
+            g.dominates(x, cn) and cn not in _reach(g, {flag_atom: False, u(g.stmt[x].value): False}, start=x) for x in X)
+        ok = any(g.dominates(i, cn) for i in incs) and flag_on
         ctx.check("R3", ok, mod, q, st,
                   "the step is shortened to a scheduled time only on paths that also advance the cursor and set the flag",
                   construct="corrected dt only together with cursor advance")
@@ -691,16 +854,21 @@ def _rule_counters_and_loop(ctx: Ctx, mod, meths: dict, rec: dict) -> None:
                   construct="while not final_time_reached(): time_step()")
     # hooks
     sol = ctx.repo.module(SOLSTRAT)
-    f = sol.func("SolutionStrategy.after_nonlinear_convergence")
+    smeths = methods(sol.cls("SolutionStrategy"))
+    f = _inline_helpers(sol.func("SolutionStrategy.after_nonlinear_convergence"), smeths.get)
+    _opaque_helpers(f, smeths.get, {"compute_time_step"}, f"{SOLSTRAT}:after_nonlinear_convergence")
     gg = cfgmod.build(f)
     calls = _call_nodes(gg, lambda c: call_name(c) == "compute_time_step")
     good = [n for n, c in calls if (kwarg(c, "iterations") is not None or c.args) and not _truthy(kwarg(c, "recompute_solution"))]
-    leak = _reach(gg, {"self.time_manager.is_constant": False}, avoid=frozenset(good))
+    tm_names = ["self.time_manager"] + [t.id for s_ in walk_local(f) if isinstance(s_, ast.Assign) and u(s_.value) == "self.time_manager"
+                                        for t in s_.targets if isinstance(t, ast.Name)]
+    leak = _reach(gg, {f"{nm}.is_constant": False for nm in tm_names}, avoid=frozenset(good))
     ctx.check("R4", bool(good) and cfgmod.EXIT not in leak, sol, "SolutionStrategy.after_nonlinear_convergence", f,
               "after a converged step with adaptive stepping compute_time_step(iterations=...) must be reached on every "
               "path: it is what shortens the next step to the next scheduled time",
               construct="converged -> compute_time_step(iterations=...)", facts={"calls": [u(c) for _, c in calls]})
-    f = sol.func("SolutionStrategy.after_nonlinear_failure")
+    f = _inline_helpers(sol.func("SolutionStrategy.after_nonlinear_failure"), smeths.get)
+    _opaque_helpers(f, smeths.get, {"compute_time_step"}, f"{SOLSTRAT}:after_nonlinear_failure")
     gg = cfgmod.build(f)
     calls = _call_nodes(gg, lambda c: call_name(c) == "compute_time_step")
     good = [n for n, c in calls if _truthy(kwarg(c, "recompute_solution")) or (len(c.args) >= 2 and _truthy(c.args[1]))]
@@ -722,6 +890,20 @@ def _rule_clamps(ctx: Ctx, mod, meths: dict) -> None:
         q = f"{CLS}.{name}"
         g = cfgmod.build(fn)
         ws = _writes(g, "dt")
+        if len(ws) == 1 and isinstance(g.stmt[ws[0]], ast.Assign) and isinstance(g.stmt[ws[0]].value, ast.Call) \
+                and call_name(g.stmt[ws[0]].value) in ("max", "min", "maximum", "minimum") and len(g.stmt[ws[0]].value.args) == 2:
+            # `self.dt = max(self.dt, dt_min)` / `self.dt = min(self.dt, dt_max)`
+            c = g.stmt[ws[0]].value
+            args = [u(a) for a in c.args]
+            bounds = [a for a in c.args if u(a) != "self.dt"]
+            fam = "max" if call_name(c).startswith("max") else "min"
+            is_bound = len(bounds) == 1 and isinstance(bounds[0], ast.Subscript) and _self_attr(bounds[0].value) == "dt_min_max" \
+                and _is_int(bounds[0].slice, idx)
+            ok = "self.dt" in args and is_bound and fam == ("max" if want == "<" else "min") and _on_all_normal_paths(g, ws[0])
+            ctx.check("R5", ok, mod, q, g.stmt[ws[0]],
+                      f"{name} must clamp dt with self.dt_min_max[{idx}] ({'max' if want == '<' else 'min'} of the two)",
+                      construct=f"self.dt = {u(c)}", facts={"call": u(c)})
+            continue
         ifs = [s for s in walk_local(fn) if isinstance(s, ast.If) and isinstance(s.test, ast.Compare) and len(s.test.ops) == 1]
         ifs = [s for s in ifs if "self.dt" in (u(s.test.left), u(s.test.comparators[0]))]
         if len(ws) != 1 or len(ifs) != 1 or not isinstance(g.stmt[ws[0]], ast.Assign):
